@@ -1,4 +1,5 @@
 import LimeModel.Basic
+import LimeModel.Generated
 /-!
 # M3: `io.LimitedReader` under the buffering stream decoder (tcp_transport.go `Receive`)
 
@@ -34,5 +35,56 @@ def recvLoop (f : Nat) : Nat → RS → Nat → List Nat → Nat → Res
 def recv (L f : Nat) (s : RS) (reads : List Nat) : Res := recvLoop f (f + 1) s L reads 0
 
 def Res.consumed : Res → Nat | .ok _ c => c | .err c => c
+
+/-! ## the budget across the receives of one connection
+
+`recv` starts every receive with the full budget. On the connection the budget is a field that the
+code renews at some point of `Receive`; *when* it does decides whether "an envelope within the limit
+is accepted no matter how much data preceded it" survives documents that are taken off the stream
+and then refused. -/
+
+/-- what a document on the stream turns out to be -/
+inductive DocKind
+  | envelope          -- decodes and converts
+  | refusedByDecode   -- well-formed JSON that `Decode` rejects after reading it (a member of the wrong JSON type, an invalid media type)
+  | refusedByConvert  -- decodes into the raw struct but is no envelope (no member tells its kind)
+  deriving DecidableEq, Repr
+
+/-- when the code renews the budget -/
+inductive Policy
+  | onValue       -- whenever a complete JSON value was taken off the stream (the code as repaired)
+  | onDecodeOk    -- only when `Decode` returned no error (the code before the repair)
+  | onEnvelope    -- only when the value converted into an envelope
+  deriving DecidableEq, Repr
+
+def Policy.renews : Policy → DocKind → Bool
+  | .onValue, _ => true
+  | .onDecodeOk, .refusedByDecode => false
+  | .onDecodeOk, _ => true
+  | .onEnvelope, .envelope => true
+  | .onEnvelope, _ => false
+
+structure Conn where
+  rs : RS
+  N : Nat          -- what is left of the budget
+  deriving Repr, DecidableEq
+
+/-- one `Receive` on the connection: `true` = the document was taken off the stream (and handed out or
+refused for what it is), `false` = the stream failed (budget exhausted or cut) -/
+def recvC (p : Policy) (L f : Nat) (k : DocKind) (c : Conn) (reads : List Nat) : Bool × Conn :=
+  match recvLoop f (f + 1) c.rs c.N reads 0 with
+  | .ok s used => (true, { rs := s, N := if p.renews k then L else c.N - used })
+  | .err used => (false, { c with N := c.N - used })
+
+/-- a stream of documents, one read oracle each -/
+def runC (p : Policy) (L : Nat) : Conn → List (Nat × DocKind × List Nat) → List Bool
+  | _, [] => []
+  | c, (f, k, reads) :: rest =>
+    let r := recvC p L f k c reads
+    r.1 :: runC p L r.2 rest
+
+/-- which policy the code has, read from the source on this run (`harness/cmd/facts/structure.go`:
+the assignment to the budget precedes the error return that follows `Decode`) -/
+def policy : Policy := if Generated.readBudgetRenewedPerValue then .onValue else .onDecodeOk
 
 end LimeModel.ReadLimit
